@@ -535,8 +535,12 @@ class Executor:
         numeric = lambda v: isinstance(v, Lin) or (isinstance(v, Const) and isinstance(v.value, (int, float)) and not isinstance(v.value, bool))
         if isinstance(l, Const) and isinstance(r, Const):
             a, b = l.value, r.value
+            if isinstance(op, ast.Eq):
+                return a == b
+            if isinstance(op, ast.NotEq):
+                return a != b
             try:
-                return {ast.Eq: a == b, ast.NotEq: a != b, ast.Lt: a < b, ast.LtE: a <= b, ast.Gt: a > b, ast.GtE: a >= b}[type(op)]
+                return {ast.Lt: lambda: a < b, ast.LtE: lambda: a <= b, ast.Gt: lambda: a > b, ast.GtE: lambda: a >= b}[type(op)]()
             except TypeError:
                 raise Unrecognised(f"cannot compare constants in {src(node)}")
         if isinstance(l, Tup) and isinstance(r, Tup) and isinstance(op, (ast.Eq, ast.NotEq)):
@@ -676,7 +680,8 @@ class Executor:
         if isinstance(fv, BoundMethod) and self.inline and self.depth < MAX_INLINE_DEPTH and self.repo is not None:
             c, f = self.repo.method(fv.cls, fv.name)
             if f is not None and not _is_abstract(f):
-                return self.inline_call(f, [fv.selfval] + args, kwargs, closure=None, selfcls=fv.cls)
+                static = any(isinstance(d, ast.Name) and d.id == "staticmethod" for d in f.decorator_list)
+                return self.inline_call(f, ([] if static else [fv.selfval]) + args, kwargs, closure=None, selfcls=fv.cls)
         if isinstance(fv, Func) and self.inline and self.depth < MAX_INLINE_DEPTH:
             return self.inline_call(fv.node, args, kwargs, closure=fv.closure)
         if isinstance(node.func, ast.Name) and node.func.id in self.inline_funcs and self.depth < MAX_INLINE_DEPTH:
